@@ -43,7 +43,7 @@ theorem inv_init (sem : DSem) (d : Nat → Prop) :
 
 theorem QInv_init (sem : DSem) : QInv sem (DState.init sem) ({} : World).onNew := by
   refine ⟨⟨⟨by simp [World.onNew], Bounded_onNew Bounded_empty⟩, inv_empty, ⟨rfl, _, _, inv_init sem _⟩, rfl, rfl,
-    Nat.le_refl _⟩, inv_empty, ?_, rows_empty⟩
+    Nat.le_refl _, fun h => (h rfl).elim⟩, inv_empty, ?_, rows_empty⟩
   intro c hc
   simp [DState.init] at hc
 
@@ -78,7 +78,8 @@ theorem QInv_buffer_update {sem : DSem} {d : DState} {w : World} (h : QInv sem d
     (hp : p.Inv) (hpr : p.RowsNodup := step_rows h.pend_inv h.pend_rows op p heff.1) : QInv sem { d with pending := p, buffer := d.buffer ++ [ev] } w := by
   have hle := h.dinv.next_le
   refine ⟨⟨h.dinv.w0, h.dinv.af_inv, h.dinv.clean, h.dinv.disabled, ?_,
-    by show d.next ≤ (d.buffer ++ [ev]).length; simp; omega⟩, hp, ?_, hpr⟩
+    by show d.next ≤ (d.buffer ++ [ev]).length; simp; omega,
+    fun hne => absurd (tail_after_update d.buffer ev hev) hne⟩, hp, ?_, hpr⟩
   · show EffRun d.af ((d.buffer ++ [ev]).drop d.next) p
     rw [List.drop_append_of_le_length hle]
     exact EffRun_append _ _ _ _ _ _ h.dinv.sync hop heff
